@@ -301,6 +301,7 @@ func (s *sim) deliver(m *wmsg, how string) {
 			}
 		}
 	}
+	sentBefore := len(s.inflight)
 	var herr error
 	func() {
 		defer func() {
@@ -312,6 +313,9 @@ func (s *sim) deliver(m *wmsg, how string) {
 		herr = v2.VerifHandleSync(n.p, conn, env)
 	}()
 	s.stat("handled/"+m.typ, 1)
+	if ts := env.GetTransactionSet(); ts != nil && herr == nil {
+		s.observeSetAnswer(ts, s.inflight[sentBefore:])
+	}
 	if m.origin != "node" {
 		s.stat("handled_"+strings.SplitN(m.origin, "/", 2)[0]+"/"+m.typ, 1)
 	}
@@ -321,6 +325,36 @@ func (s *sim) deliver(m *wmsg, how string) {
 	}
 	s.remember(m)
 	s.check()
+}
+
+// observeSetAnswer records what a node sent after it accepted a TransactionSet (observation for the evidence; the verdict on the page walk
+// is the convergence oracle): a State is the request for a lower page after an IBLT that did not decode, a range query from clock 0 is
+// the end of that walk, a range query further up is the climb to the peer's pages.
+func (s *sim) observeSetAnswer(ts *v2.TransactionSet, sent []*wmsg) {
+	ahead := ts.LC/dag.PageSize > min(ts.LC, ts.LCReq)/dag.PageSize
+	for _, o := range sent {
+		switch o.typ {
+		case "State":
+			s.stat("walkdown/state_for_lower_page", 1)
+			if ahead {
+				s.stat("walkdown/state_for_lower_page/peer_pages_ahead", 1)
+			} else {
+				s.stat("walkdown/state_for_lower_page/peer_same_page_or_behind", 1)
+			}
+			if st := decode(o).GetState(); st != nil {
+				s.stat(fmt.Sprintf("walkdown/state_requests_page/%d", st.LC/dag.PageSize), 1)
+			}
+		case "TransactionRangeQuery":
+			if q := decode(o).GetTransactionRangeQuery(); q != nil && q.Start == 0 {
+				s.stat("walkdown/page0_range_query", 1)
+				if ahead {
+					s.stat("walkdown/page0_range_query/peer_pages_ahead", 1)
+				}
+			} else if q != nil {
+				s.stat("climb/range_query_for_higher_pages", 1)
+			}
+		}
+	}
 }
 
 // remember keeps a delivered or dropped message for later stale/unsolicited re-injection (fault phase only; large lists are not kept).
